@@ -556,3 +556,7 @@ def run(ctx):
     check_cv(ctx, fb)
     check_join(ctx, fb)
     check_forward(ctx, fb)
+    rodr = ctx.rule('R-ODR', 'every inline / constexpr library function used by the yaclib_std wrappers is defined in the '
+                    'translation unit that uses it (otherwise that part of the API does not link)', minimum=1)
+    from rules import lib_core
+    lib_core.check_undefined_inline(ctx, fb, rodr)
